@@ -1113,6 +1113,244 @@ theorem c10_close_handshake_needs_the_lock :
   decide
 
 
+/-! ### the client side: `WebSocket.start` / `WebSocket.stop` -/
+
+/-- what holds of the websocket's start/stop hand-shake in every reachable state -/
+structure WsInv (s : Ws) : Prop where
+  st  : s.started = true ↔ (s.start = .locked ∨ s.start = .sending)
+  sv  : s.serving = true → s.started = true ∧ ∀ j, s.lock ≠ some (.stop j)
+  sh  : ∀ j, s.stops[j]? = some .shutting → s.lock = some (.stop j) ∧ s.start = .sending
+  lk1 : s.lock = some .start ↔ s.start = .locked
+  lk2 : ∀ j, s.lock = some (.stop j) → s.stops[j]? = some .shutting
+
+theorem ws_inv_init : WsInv {} := by
+  refine ⟨by simp, by simp, by simp, by simp, by simp⟩
+
+theorem ws_inv_step {s s' : Ws} {a : WsAct} (h : WsInv s) (hs : wsStep s a = some s') : WsInv s' := by
+  obtain ⟨h1, h2, h3, h4, h5⟩ := h
+  cases a with
+  | startLock =>
+    simp only [wsStep] at hs
+    split at hs
+    · rename_i hc
+      cases hs
+      refine ⟨by simp, by simp, ?_, by simp, ?_⟩
+      · intro j hj; have := h3 j hj; grind
+      · intro j hj; simp at hj
+    · cases hs
+  | startUnlock =>
+    simp only [wsStep] at hs
+    split at hs
+    · rename_i hc
+      cases hs
+      have hst := h1.mpr (.inl hc)
+      refine ⟨by simp [hst], ?_, ?_, by simp, ?_⟩
+      · intro _; exact ⟨hst, by simp⟩
+      · intro j hj; have := h3 j hj; grind
+      · intro j hj; simp at hj
+    · cases hs
+  | stopCall =>
+    simp only [wsStep] at hs
+    cases hs
+    refine ⟨h1, h2, ?_, h4, ?_⟩
+    · intro j hj
+      have : s.stops[j]? = some .shutting := by grind
+      exact h3 j this
+    · intro j hj
+      have := h5 j hj
+      grind
+  | stopLock j =>
+    simp only [wsStep] at hs
+    split at hs
+    · rename_i hc
+      split at hs
+      · rename_i hst
+        cases hs
+        have hstart : s.start = .sending := by
+          rcases h1.mp hst with h | h
+          · have := h4.mpr h; grind
+          · exact h
+        refine ⟨h1, by simp, ?_, by simp [hstart], ?_⟩
+        · intro k hk
+          by_cases hkj : j = k
+          · subst hkj; exact ⟨rfl, hstart⟩
+          · have : s.stops[k]? = some .shutting := by grind
+            have := h3 k this; grind
+        · intro k hk
+          have : j = k := by simpa using hk
+          subst this
+          grind
+      · cases hs
+        refine ⟨h1, h2, ?_, h4, ?_⟩
+        · intro k hk
+          have : s.stops[k]? = some .shutting := by grind
+          exact h3 k this
+        · intro k hk
+          have := h5 k hk
+          grind
+    · cases hs
+  | handshake j =>
+    simp only [wsStep] at hs
+    split at hs
+    · rename_i hc
+      cases hs
+      have hl := (h3 j hc.1).1
+      refine ⟨by simp, ?_, ?_, by simp, by simp⟩
+      · intro hv
+        exact absurd hl ((h2 hv).2 j)
+      · intro k hk
+        have hne : k ≠ j := by grind
+        have : s.stops[k]? = some .shutting := by grind
+        have := (h3 k this).1
+        rw [hl] at this
+        exact absurd (by simpa using this.symm) hne
+    · cases hs
+
+theorem ws_inv_run (s : Ws) (h : WsInv s) (acts : List WsAct) : WsInv (wsRun s acts) := by
+  induction acts generalizing s with
+  | nil => exact h
+  | cons a as ih =>
+    simp only [wsRun]
+    cases hs : wsStep s a with
+    | none => exact ih s h
+    | some s' => exact ih s' (ws_inv_step h hs)
+
+theorem ws_step_measure {s s' : Ws} {a : WsAct} (hs : wsStep s a = some s') (ha : a ≠ .stopCall) :
+    wsMeasure s' < wsMeasure s := by
+  cases a with
+  | stopCall => exact absurd rfl ha
+  | startLock =>
+    simp only [wsStep] at hs
+    split at hs
+    · rename_i h; cases hs; simp [wsMeasure, h.1, WsStartPc.rank]
+    · cases hs
+  | startUnlock =>
+    simp only [wsStep] at hs
+    split at hs
+    · rename_i h; cases hs; simp [wsMeasure, h, WsStartPc.rank]
+    · cases hs
+  | stopLock j =>
+    simp only [wsStep] at hs
+    split at hs
+    · rename_i h
+      split at hs
+      · cases hs
+        have := sum_map_set_gen WsStopPc.rank (b := WsStopPc.shutting) h.1
+        simp only [wsMeasure, WsStopPc.rank] at this ⊢
+        omega
+      · cases hs
+        have := sum_map_set_gen WsStopPc.rank (b := WsStopPc.returned) h.1
+        simp only [wsMeasure, WsStopPc.rank] at this ⊢
+        omega
+    · cases hs
+  | handshake j =>
+    simp only [wsStep] at hs
+    split at hs
+    · rename_i h
+      cases hs
+      have := sum_map_set_gen WsStopPc.rank (b := WsStopPc.returned) h.1
+      simp only [wsMeasure, WsStopPc.rank, h.2, WsStartPc.rank] at this ⊢
+      omega
+    · cases hs
+
+/-- **`WebSocket.stop` always comes back**: for every interleaving of the websocket's `start` and
+unboundedly many `stop` calls, (1) a `stop` that waits for the mutex can take it, or its holder can
+move: `start` (inside its critical section) releases it, another `stop` (blocked in `<-startstop`)
+is served by `start`, which is blocked in its send at that moment; (2) a `stop` that has shut the
+server down and waits for the token is served; (3) every step of `start` and of a `stop` uses up
+`wsMeasure`, which only a new call increases. -/
+theorem c10_ws_stop_terminates (acts : List WsAct) :
+    let s := wsRun {} acts
+    (∀ j, s.stops[j]? = some .want →
+      (∃ s', wsStep s (.stopLock j) = some s') ∨
+      (s.lock = some .start ∧ ∃ s', wsStep s .startUnlock = some s') ∨
+      (∃ k, s.lock = some (.stop k) ∧ ∃ s', wsStep s (.handshake k) = some s')) ∧
+    (∀ j, s.stops[j]? = some .shutting → ∃ s', wsStep s (.handshake j) = some s') ∧
+    (∀ a s', wsStep s a = some s' → a ≠ .stopCall → wsMeasure s' < wsMeasure s) := by
+  intro s
+  have ex : ∀ {o : Option Ws}, o.isSome = true → ∃ x, o = some x := fun h => Option.isSome_iff_exists.mp h
+  have hinv : WsInv s := ws_inv_run {} ws_inv_init acts
+  have shut : ∀ j, s.stops[j]? = some .shutting → ∃ s', wsStep s (.handshake j) = some s' := by
+    intro j hj
+    exact ex (by simp [wsStep, hj, (hinv.sh j hj).2])
+  refine ⟨?_, shut, fun a s' hs ha => ws_step_measure hs ha⟩
+  intro j hj
+  cases hl : s.lock with
+  | none => left; exact ex (by simp only [wsStep, hj, hl, and_self, if_true]; split <;> rfl)
+  | some hd =>
+    right
+    cases hd with
+    | start =>
+      left
+      exact ⟨rfl, ex (by simp [wsStep, hinv.lk1.mp hl])⟩
+    | stop k =>
+      right
+      exact ⟨k, rfl, shut k (hinv.lk2 k hl)⟩
+
+/-- **the client-side port is given back**: in every reachable state the HTTP server's goroutine
+holds the port only while the websocket counts as started and no `stop` is inside its critical
+section; so once `start` has returned — which is what a `stop` that found the websocket started
+brings about before it returns — the port is free, `started` is reset and the mutex is free. -/
+theorem c10_ws_port_released (acts : List WsAct) :
+    let s := wsRun {} acts
+    (s.serving = true → s.started = true ∧ (s.start = .locked ∨ s.start = .sending)) ∧
+    (s.start = .returned → s.serving = false ∧ s.started = false ∧ s.lock = none) ∧
+    (∀ j : Nat, s.stops[j]? = some WsStopPc.shutting → s.serving = false) := by
+  intro s
+  have hinv : WsInv s := ws_inv_run {} ws_inv_init acts
+  refine ⟨fun hv => ⟨(hinv.sv hv).1, hinv.st.mp (hinv.sv hv).1⟩, ?_, ?_⟩
+  · intro hr
+    have hst : s.started = false := by
+      cases h : s.started
+      · rfl
+      · rcases hinv.st.mp h with h' | h' <;> simp [hr] at h'
+    have hsv : s.serving = false := by
+      cases h : s.serving
+      · rfl
+      · have := (hinv.sv h).1; simp [hst] at this
+    refine ⟨hsv, hst, ?_⟩
+    cases hl : s.lock with
+    | none => rfl
+    | some hd =>
+      cases hd with
+      | start => have := hinv.lk1.mp hl; simp [hr] at this
+      | stop k => have := (hinv.sh k (hinv.lk2 k hl)).2; simp [hr] at this
+  · intro j hj
+    cases h : s.serving
+    · rfl
+    · exact absurd (hinv.sh j hj).1 ((hinv.sv h).2 j)
+
+/-- **a further `stop` changes nothing**: once `start` has returned, every later `stop` takes the
+free mutex, finds `started` reset and returns; no second `Shutdown`, no wait for a token that nobody
+sends. -/
+theorem c10_ws_stop_idempotent (acts : List WsAct) :
+    let s := wsRun {} acts
+    s.start = .returned → ∀ j, s.stops[j]? = some .want →
+      wsStep s (.stopLock j) = some { s with stops := s.stops.set j .returned } := by
+  intro s hr j hj
+  have h := (c10_ws_port_released acts).2.1 hr
+  have hl : s.lock = none := h.2.2
+  have hst : s.started = false := h.2.1
+  simp [wsStep, hj, hl, hst]
+
+/-- outside the property's quantifier (a `Close` that overtakes `Start`): a `stop` that runs before the
+websocket's `start` finds nothing to stop and returns; the `start` that follows opens the port and
+blocks for a token no finished `stop` will take — only a new `stop` call ends it -/
+theorem c10_ws_stop_before_start_leaves_port :
+    let s := wsRun {} [.stopCall, .stopLock 0, .startLock, .startUnlock]
+    s.stops = [.returned] ∧ s.serving = true ∧ s.start = .sending ∧
+    wsStep s (.handshake 0) = none ∧ wsStep s (.stopLock 0) = none := by
+  decide
+
+/-- non-vacuity: the usual life — `start`, then two overlapping `stop` calls — ends with the port
+free, `start` returned, one `Shutdown` -/
+example :
+    let s := wsRun {} [.startLock, .stopCall, .stopLock 0, .startUnlock, .stopCall, .stopLock 1, .stopLock 0,
+                       .handshake 1, .handshake 0, .stopLock 0]
+    s.stops = [.returned, .returned] ∧ s.serving = false ∧ s.start = .returned ∧ s.shutdowns = 1 ∧
+    s.lock = none := by decide
+
+
 /-! ### the listeners -/
 
 def LoopPc.alive : LoopPc → Bool
